@@ -220,6 +220,7 @@ func (server *Server) close() error {
 
 // serve handles client connections.
 func (server *Server) serve(l net.Listener) error {
+	defer verifPoint("serve.exit")
 	defer server.acceptLoops.Done()
 	// The accept loop owns the listener it was started with: when it ends it
 	// must not close the listeners a later Start has opened.
@@ -239,6 +240,7 @@ func (server *Server) serve(l net.Listener) error {
 
 // tlsServe handles client connections with TLS.
 func (server *Server) tlsServe(l net.Listener, tlsConfig *tls.Config) error {
+	defer verifPoint("tlsServe.exit")
 	defer server.acceptLoops.Done()
 	defer l.Close()
 	verifPoint("tlsServe.enter")
